@@ -101,7 +101,8 @@ def judge(r, seg, qkey, qval, hval, method, bodykind, dontcare):
 
 def run(ctx):
     classes = set(CLASS)
-    consts = {"Classes": classes, "Methods": {"GET", "POST", "PUT"}, "BodyKinds": {"none", "raw", "json", "form"}}
+    consts = {"Classes": classes, "Methods": {"GET", "POST", "PUT"}, "BodyKinds": {"none", "raw", "json", "form"},
+              "MaxAway": 2 if ctx.quick else 3}
     r = ctx.tlc("http", "ReqChannel", core.cfg_text(constants=consts, invariants=["Identity"]))
     for v in r.violated:
         ctx.violation("the model violates %s" % v, {"tlc": r.out[-2000:]})
@@ -132,7 +133,7 @@ def run(ctx):
     ctx.exhaustive = True
     return ctx.finish(level="model_checking",
                       rule="one case per request of the model (method, class of path segment / query key / query value / header value with "
-                           "at most two away from the default, body kind) with one of 1-3 concrete strings per class",
+                           "at most two (quick) / three (thorough) away from the default, body kind) with one of 1-3 concrete strings per class",
                       assumptions=["'?', '#' and an empty segment inside a path, an empty query key, and blank or empty header values are "
                                    "don't-cares (URL / HTTP syntax gives them another meaning)",
                                    "header values outside latin-1 cannot be put on the wire: the client refusing them is accepted",
